@@ -117,6 +117,14 @@ theorem fileReader_index_position (bodies : List (List Nat)) (i : Nat) (pre tail
       else none :=
   readIndexPosition_stream bodies i pre tail hb ht
 
+/-- `FileMessageReader::read_next`, called until it fails (the catalogue, snapshot and transfer readers): exactly the
+records of the stream, in order, nothing dropped or added - wherever the stream starts in the file, with or without an
+end mark behind it, however close to the end of the file a record starts -/
+theorem fileReader_read_next (bodies : List (List Nat)) (pre tail : List Nat) (n : Nat)
+    (hb : BodiesOK bodies) (ht : TailOK tail) (hn : bodies.length ≤ n) :
+    readAll n ⟨pre ++ stream bodies tail, pre.length⟩ = bodies.map frame :=
+  readAll_stream bodies pre tail n hb ht hn
+
 /-! ## non-vacuity: the hypotheses are met by concrete non-trivial streams -/
 
 example : BodiesOK [[7, 8], [1, 1, 1, 1, 1]] ∧ TailOK [0, 0, 0] ∧
